@@ -160,6 +160,12 @@ func cmdCheck(args []string) {
 	printedKnown := map[string]bool{}
 	totalViol := 0
 	var replayed int
+	type pendingViol struct {
+		in   *instance
+		v    sym.Event
+		path string
+	}
+	var pending []pendingViol
 	for _, in := range insts {
 		r := in.res
 		if os.Getenv("VF_VERBOSE") != "" {
@@ -204,32 +210,63 @@ func cmdCheck(args []string) {
 				exit = 2
 			}
 		}
-		// violations: replay natively; report at most 2 per instance
 		sort.Slice(r.Violations, func(i, j int) bool { return r.Violations[i].Label < r.Violations[j].Label })
-		for i, v := range r.Violations {
-			if i >= 2 {
-				break
-			}
+		seenLabel := map[string]bool{}
+		for _, v := range r.Violations {
 			totalViol++
-			path := writeReplay(*vdir, *prop, in, v)
-			if *noReplay {
-				fmt.Printf("VIOLATION(unreplayed) property=%s replay=%s harness=%s%v label=%s %s\n", *prop, path, in.hp.Fn, in.params, v.Label, firstLines(v.Detail, 2))
-				exit = 1
+			if seenLabel[v.Label] {
 				continue
 			}
-			ok, out := nativeReplay(*repo, *vdir, path)
-			replayed++
-			if ok {
-				fmt.Printf("VIOLATION property=%s replay=%s\n", *prop, path)
-				fmt.Printf("  harness=%s%v assertion=%s %s\n", in.hp.Fn, in.params, v.Label, firstLines(v.Detail, 2))
-				exit = 1
-			} else {
-				msg := fmt.Sprintf("%s%v: solver model for %q did not reproduce natively (engine discrepancy): %s", in.hp.Fn, in.params, v.Label, firstLines(out, 6))
-				notes = append(notes, "inconclusive: "+msg)
-				fmt.Println("INCONCLUSIVE " + msg)
-				if exit == 0 {
-					exit = 2
-				}
+			seenLabel[v.Label] = true
+			pending = append(pending, pendingViol{in, v, writeReplay(*vdir, *prop, in, v)})
+		}
+	}
+	// replay natively (at most maxReplays; the rest are listed without a verdict)
+	const maxReplays = 6
+	type rres struct {
+		ok  bool
+		out string
+	}
+	results := make([]rres, len(pending))
+	var rwg sync.WaitGroup
+	rsem := make(chan struct{}, 6)
+	for i, pv := range pending {
+		if i >= maxReplays || *noReplay {
+			break
+		}
+		rwg.Add(1)
+		go func(i int, pv pendingViol) {
+			defer rwg.Done()
+			rsem <- struct{}{}
+			defer func() { <-rsem }()
+			ok, out := nativeReplay(*repo, *vdir, pv.path)
+			results[i] = rres{ok, out}
+		}(i, pv)
+	}
+	rwg.Wait()
+	theReplayer.cleanup()
+	for i, pv := range pending {
+		in, v := pv.in, pv.v
+		if *noReplay {
+			fmt.Printf("VIOLATION(unreplayed) property=%s replay=%s harness=%s%v label=%s %s\n", *prop, pv.path, in.hp.Fn, in.params, v.Label, firstLines(v.Detail, 2))
+			exit = 1
+			continue
+		}
+		if i >= maxReplays {
+			fmt.Printf("  further counterexample (not replayed): harness=%s%v assertion=%s replay-file=%s\n", in.hp.Fn, in.params, v.Label, pv.path)
+			continue
+		}
+		replayed++
+		if results[i].ok {
+			fmt.Printf("VIOLATION property=%s replay=%s\n", *prop, pv.path)
+			fmt.Printf("  harness=%s%v assertion=%s %s\n", in.hp.Fn, in.params, v.Label, firstLines(v.Detail, 2))
+			exit = 1
+		} else {
+			msg := fmt.Sprintf("%s%v: solver model for %q did not reproduce natively (engine discrepancy): %s", in.hp.Fn, in.params, v.Label, firstLines(results[i].out, 6))
+			notes = append(notes, "inconclusive: "+msg)
+			fmt.Println("INCONCLUSIVE " + msg)
+			if exit == 0 {
+				exit = 2
 			}
 		}
 	}
@@ -294,15 +331,35 @@ func writeReplay(vdir, prop string, in *instance, v sym.Event) string {
 
 // nativeReplay builds the real code with the harness overlay and runs the
 // harness on the model.  It reports whether the violation reproduced.
-func nativeReplay(repo, vdir, replayPath string) (bool, string) {
-	var doc replayDoc
-	mustJSON(replayPath, &doc)
-	tmp, err := os.MkdirTemp("", "vfreplay")
-	if err != nil {
-		return false, err.Error()
+type replayer struct {
+	mu   sync.Mutex
+	tmp  string
+	bins map[string]string // pkg -> test binary ("" = build failed)
+	errs map[string]string
+}
+
+var theReplayer = &replayer{bins: map[string]string{}, errs: map[string]string{}}
+
+func (r *replayer) cleanup() {
+	if r.tmp != "" {
+		os.RemoveAll(r.tmp)
 	}
-	defer os.RemoveAll(tmp)
-	// overlay: harness files + generated registry test
+}
+
+// binary builds (once per package) the native test binary: real code + harness overlay.
+func (r *replayer) binary(repo, vdir, pkg string) (string, string) {
+	r.mu.Lock()
+	defer r.mu.Unlock()
+	if b, ok := r.bins[pkg]; ok {
+		return b, r.errs[pkg]
+	}
+	if r.tmp == "" {
+		t, err := os.MkdirTemp("", "vfreplay")
+		if err != nil {
+			return "", err.Error()
+		}
+		r.tmp = t
+	}
 	ov := map[string]string{}
 	hdir := filepath.Join(vdir, "harness")
 	filepath.Walk(hdir, func(p string, info os.FileInfo, err error) error {
@@ -312,7 +369,28 @@ func nativeReplay(repo, vdir, replayPath string) (bool, string) {
 		}
 		return nil
 	})
-	pkgName := filepath.Base(doc.Pkg)
+	pkgName := filepath.Base(pkg)
+	// registry of harness functions in this package
+	var names []string
+	entries, _ := os.ReadDir(filepath.Join(hdir, pkg))
+	for _, e := range entries {
+		if !strings.HasSuffix(e.Name(), ".go") {
+			continue
+		}
+		b, _ := os.ReadFile(filepath.Join(hdir, pkg, e.Name()))
+		for _, l := range strings.Split(string(b), "\n") {
+			if strings.HasPrefix(l, "func VF_") {
+				n := strings.TrimPrefix(l, "func ")
+				if i := strings.IndexByte(n, '('); i > 0 {
+					names = append(names, n[:i])
+				}
+			}
+		}
+	}
+	var reg strings.Builder
+	for _, n := range names {
+		fmt.Fprintf(&reg, "\t%q: %s,\n", n, n)
+	}
 	testSrc := fmt.Sprintf(`//go:build verif
 
 package %s
@@ -327,9 +405,16 @@ import (
 	vf "%s/zzvf"
 )
 
+var vfRegistry = map[string]func(int, int){
+%s}
+
 func TestVFReplay(t *testing.T) {
 	a, _ := strconv.Atoi(os.Getenv("VF_P0"))
 	b, _ := strconv.Atoi(os.Getenv("VF_P1"))
+	f := vfRegistry[os.Getenv("VF_HARNESS")]
+	if f == nil {
+		t.Fatal("VF-NO-HARNESS")
+	}
 	vf.QuiesceBase = runtime.NumGoroutine()
 	defer func() {
 		if r := recover(); r != nil {
@@ -337,17 +422,38 @@ func TestVFReplay(t *testing.T) {
 			t.Fail()
 		}
 	}()
-	%s(a, b)
+	f(a, b)
 	fmt.Println("VF-REPLAY-COMPLETED")
 }
-`, pkgName, modulePath(repo), doc.Harness)
-	tf := filepath.Join(tmp, "zz_replay_test.go")
+`, pkgName, modulePath(repo), reg.String())
+	tf := filepath.Join(r.tmp, pkgName+"_replay_test.go")
 	os.WriteFile(tf, []byte(testSrc), 0o644)
-	ov[filepath.Join(repo, doc.Pkg, "zz_replay_test.go")] = tf
+	ov[filepath.Join(repo, pkg, "zz_replay_test.go")] = tf
 	ovb, _ := json.Marshal(map[string]interface{}{"Replace": ov})
-	ovf := filepath.Join(tmp, "overlay.json")
+	ovf := filepath.Join(r.tmp, pkgName+"_overlay.json")
 	os.WriteFile(ovf, ovb, 0o644)
+	bin := filepath.Join(r.tmp, pkgName+".test")
+	build := exec.Command("timeout", "900", "go", "test", "-c", "-tags", "verif", "-vet=off", "-overlay", ovf, "-o", bin, "./"+pkg)
+	build.Dir = repo
+	build.Env = append(os.Environ(), "GOFLAGS=-mod=mod", "GOPROXY=off", "GOSUMDB=off", "GOTOOLCHAIN=local", "GOCACHE="+goCache())
+	if bout, err := build.CombinedOutput(); err != nil {
+		r.bins[pkg] = ""
+		r.errs[pkg] = "replay build failed: " + tail(string(bout), 10)
+		return "", r.errs[pkg]
+	}
+	r.bins[pkg] = bin
+	return bin, ""
+}
 
+// nativeReplay runs the harness on the model against the natively compiled real
+// code.  It reports whether the violation reproduced.
+func nativeReplay(repo, vdir, replayPath string) (bool, string) {
+	var doc replayDoc
+	mustJSON(replayPath, &doc)
+	bin, berr := theReplayer.binary(repo, vdir, doc.Pkg)
+	if bin == "" {
+		return false, berr
+	}
 	p0, p1 := 0, 0
 	if len(doc.Params) > 0 {
 		p0 = doc.Params[0]
@@ -355,18 +461,9 @@ func TestVFReplay(t *testing.T) {
 	if len(doc.Params) > 1 {
 		p1 = doc.Params[1]
 	}
-	bin := filepath.Join(tmp, "replay.test")
-	env := append(os.Environ(), "GOFLAGS=-mod=mod", "GOPROXY=off", "GOSUMDB=off", "GOTOOLCHAIN=local",
-		"VF_REPLAY="+replayPath, fmt.Sprintf("VF_P0=%d", p0), fmt.Sprintf("VF_P1=%d", p1), "GOCACHE="+goCache())
-	build := exec.Command("timeout", "600", "go", "test", "-c", "-tags", "verif", "-vet=off", "-overlay", ovf, "-o", bin, "./"+doc.Pkg)
-	build.Dir = repo
-	build.Env = env
-	if bout, err := build.CombinedOutput(); err != nil {
-		return false, "replay build failed: " + tail(string(bout), 10)
-	}
 	cmd := exec.Command("timeout", "120", bin, "-test.run", "^TestVFReplay$", "-test.timeout", "20s", "-test.v")
 	cmd.Dir = repo
-	cmd.Env = env
+	cmd.Env = append(os.Environ(), "VF_REPLAY="+replayPath, "VF_HARNESS="+doc.Harness, fmt.Sprintf("VF_P0=%d", p0), fmt.Sprintf("VF_P1=%d", p1))
 	outb, _ := cmd.CombinedOutput()
 	out := string(outb)
 	if strings.Contains(out, "VF-ASSUME-FAILED") {
